@@ -2,3 +2,5 @@ import Eliot.Properties.C09Rule
 #print axioms PM.C09Rule.completeNow_is_translated
 #print axioms PM.C09Rule.visit_is_translated
 #print axioms PM.C09Rule.shapes
+#print axioms PM.C09Rule.add_single_message_task
+#print axioms PM.C09Rule.add_action_message
